@@ -154,6 +154,9 @@ func (tb *LTable) RawSet(key LValue, value LValue) {
 			}
 			index := int(v) - 1
 			alen := len(tb.array)
+			if value == LNil && index >= alen {
+				return // deleting an absent key: nothing to store, do not grow the array part
+			}
 			switch {
 			case index == alen:
 				tb.array = append(tb.array, value)
@@ -186,6 +189,9 @@ func (tb *LTable) RawSetInt(key int, value LValue) {
 	}
 	index := key - 1
 	alen := len(tb.array)
+	if value == LNil && index >= alen {
+		return // deleting an absent key: nothing to store, do not grow the array part
+	}
 	switch {
 	case index == alen:
 		tb.array = append(tb.array, value)
